@@ -14,7 +14,11 @@ MIXINS = ['append', 'pop', 'remove', 'reverse', 'clear', '__iadd__', '__contains
 
 def grid_methods(ctx):
     m = ctx.model
-    meths = m.methods(MOD, 'Grid')
+    # rules on the mutators are written against the early-exit ('flat') spelling, the dispatch of __getitem__ against
+    # the if/elif/else ('nested') one; both are behaviour-preserving views of the same methods (model.view)
+    meths = m.methods(MOD, 'Grid', 'flat')
+    if '__getitem__' in meths:
+        meths['__getitem__'] = m.func(MOD, 'Grid.__getitem__', 'nested')
     ctx.count('methods of Grid', len(meths))
     return meths
 
